@@ -465,7 +465,7 @@ def row_c(arr, idx):
     return [val_c(v) for v in np.asarray(arr[tuple(idx)]).reshape(-1).tolist()]
 
 
-def leaf_expect(leaf, kind, nv, centre, local, n_local, built):
+def leaf_expect(leaf, kind, nv, centre, local, n_local, built, half=None):
     """acceptable rows (lists of (re,im)) for a cell with exact centre `centre` and index `local` within the
     (sub)mesh of shape n_local the leaf is evaluated on; None = nothing demanded (observation class);
     'invalid' = the leaf must be rejected"""
@@ -505,10 +505,19 @@ def leaf_expect(leaf, kind, nv, centre, local, n_local, built):
     src = built[id(leaf)]
     if src.nvdim != nv:
         return "invalid"
+    if half is not None:                                      # the (sub)region itself must lie inside the source region
+        lo = [Fraction(float(x)) for x in src.mesh.region.pmin]
+        hi = [Fraction(float(x)) for x in src.mesh.region.pmax]
+        if any(c - h < a - (b - a) / 2**40 or c + h > b + (b - a) / 2**40 for c, h, a, b in zip(centre, half, lo, hi)):
+            return "invalid"
     cells = containing_cells(src.mesh, centre)
     if not cells:
         return "invalid"
     return [row_c(src.array, c) for c in cells]
+
+
+def half_cell(mesh):
+    return [(Fraction(float(b)) - Fraction(float(a))) / (2 * int(k)) for a, b, k in zip(mesh.region.pmin, mesh.region.pmax, mesh.n)]
 
 
 def spec_expect(spec, kind, nv, mesh, subs_idx, idx, built):
@@ -516,12 +525,12 @@ def spec_expect(spec, kind, nv, mesh, subs_idx, idx, built):
     centre = [Fraction(float(x)) for x in mesh.index2point(idx)]
     n = [int(k) for k in mesh.n]
     if spec["k"] != "dict":
-        return leaf_expect(spec, kind, nv, centre, list(idx), n, built)
+        return leaf_expect(spec, kind, nv, centre, list(idx), n, built, half=half_cell(mesh))
     items = dict((name, l) for name, l in spec["items"])
     for name, k1, k2 in subs_idx:
         if name in items and all(a <= i < b for a, i, b in zip(k1, idx, k2)):
             return leaf_expect(items[name], kind, nv, centre, [i - a for i, a in zip(idx, k1)],
-                               [b - a for a, b in zip(k1, k2)], built)
+                               [b - a for a, b in zip(k1, k2)], built, half=half_cell(mesh))
     d = spec["default"]
     if d is None:
         return "invalid"
@@ -563,7 +572,7 @@ def rows_equal(got, want, exact, scale):
             if exact:
                 if x != y:
                     return False
-            elif abs(x - y) > Fraction(2) ** -40 * max(abs(y), Fraction(scale)):
+            elif abs(x - y) > Fraction(2) ** -36 * max(abs(y), Fraction(scale)):
                 return False
     return True
 
@@ -605,7 +614,7 @@ def spec_validity(spec, kind, nv, mesh, built):
                 if all(a <= i < b for a, i, b in zip(k1, idx, k2)):
                     centre = [Fraction(float(x)) for x in mesh.index2point(idx)]
                     w = leaf_expect(items[name], kind, nv, centre, [i - a for i, a in zip(idx, k1)],
-                                    [b - a for a, b in zip(k1, k2)], built)
+                                    [b - a for a, b in zip(k1, k2)], built, half=half_cell(mesh))
                     if w == "invalid":
                         return "invalid"
                     if w is None:
@@ -891,6 +900,14 @@ def probe(f, case, rng, fail, exact=True):
             lines.append(rec)
             continue
         data = ln.data
+        cols = ["r"] + list(mesh.region.dims) + list(ln.value_columns)
+        if len(set(cols)) != len(cols):
+            clash = sorted(c for c in set(cols) if cols.count(c) > 1)
+            fail(f"line data frame: coordinate column(s) {clash} overwritten by the distance/value column of the same name "
+                 f"(dims {list(mesh.region.dims)}, value columns {list(ln.value_columns)}): the points of the line are lost")
+            rec["st"] = "collision"
+            lines.append(rec)
+            continue
         P = data[list(mesh.region.dims)].to_numpy()
         Vv = data[list(ln.value_columns)].to_numpy()
         r = data["r"].to_numpy()
@@ -1079,3 +1096,184 @@ def describe(spec):
         s = spec.get("src")
         return f"field(nvdim={s['nvdim']}, n={s['n']}, {s['p1']}..{s['p2']})" if s else "field"
     return f"{spec.get('what')}"
+
+
+# --------------------------------------------------------------------------- model side
+def junk_of(kind):
+    """what np.full(..., np.nan, dtype) stores when the dtype cannot hold NaN (None: it can)"""
+    if kind in ("int", "bool"):
+        with np.errstate(all="ignore"):
+            return num_j(val_c(np.full((1,), np.nan, dtype=np_dtype(kind))[0]))
+    return None
+
+
+def with_junk(req, kind):
+    j = junk_of(kind)
+    if j is not None:
+        req["junk"] = j
+    return req
+
+
+def model_requests(case, obs):
+    if obs.get("skip") or "mesh_json" not in obs:
+        return []
+    mj, nv = obs["mesh_json"], case["nvdim"]
+    reqs = _model_requests(case, obs, mj, nv)
+    return [with_junk(r, case["dtype"]) if r["op"] in ("construct", "update") else r for r in reqs]
+
+
+def _model_requests(case, obs, mj, nv):
+    if case["kind"] == "malformed" and case["via"] != "ctor":
+        if obs["before"]["data"] is None:
+            return []
+        if case["via"] == "update":
+            return [dict(op="update", field=obs["before"], spec=obs["spec_json"])]
+        return [dict(op="set_array", field=obs["before"], leaf=obs["spec_json"])]
+    reqs = [dict(op="construct", mesh=mj, nvdim=nv, spec=obs["spec_json"])]
+    if obs.get("st") != "ok" or "field" not in obs:
+        return reqs
+    pr = obs["probe"]
+    reqs.append(dict(op="probe", field=obs["field"], calls=[c["p"] for c in pr["calls"]],
+                     comps=[c["label"] for c in pr["comps"]], iter=True,
+                     lines=[dict(p1=l["p1"], p2=l["p2"], n=l["n"]) for l in pr["lines"]]))
+    if case["kind"] == "init":
+        reqs.append(dict(op="update", field=obs["field"], spec=obs["spec2_json"]))
+        if obs["after2"]["data"] is not None:
+            if case["via"] == "update":
+                reqs.append(dict(op="update", field=obs["after2"], spec=obs["bad_json"]))
+            else:
+                reqs.append(dict(op="set_array", field=obs["after2"], leaf=obs["bad_json"]))
+    return reqs
+
+
+def cmp_nums(name, impl, model, exact, dis, scale=1.0, rel=2**-36):
+    if impl is None:
+        dis.append(f"{name}: impl holds non-finite values")
+        return False
+    if len(impl) != len(model):
+        dis.append(f"{name}: {len(impl)} entries vs model {len(model)}")
+        return False
+    for k, (a, b) in enumerate(zip(impl, model)):
+        x, y = resp_c(a), resp_c(b)
+        if exact:
+            ok = x == y
+        else:
+            ok = all(abs(u - v) <= Fraction(rel) * max(abs(v), Fraction(scale)) for u, v in zip(x, y))
+        if not ok:
+            dis.append(f"{name}: entry {k}: impl {a} vs model {b}")
+            return False
+    return True
+
+
+def cmp_array(name, impl, model, exact, dis):
+    if impl["shape"] != model["shape"]:
+        dis.append(f"{name}: shape impl {impl['shape']} vs model {model['shape']}")
+        return
+    cmp_nums(name, impl["data"], model["data"], exact, dis)
+
+
+def cmp_after(name, st, after, resp, dis):
+    if resp["accepted"] != (st == "ok"):
+        dis.append(f"{name}: impl {'accepted' if st == 'ok' else 'rejected'} vs model {'accepted' if resp['accepted'] else 'rejected'}")
+        return
+    cmp_array(name + " (state after)", dict(shape=after["shape"], data=after["data"]), resp["state"], True, dis)
+
+
+def compare(case, obs, rs):
+    dis = []
+    if not rs:
+        return dis
+    exact = case["kind"] != "tol"
+    if case["kind"] == "malformed" and case["via"] != "ctor":
+        cmp_after(f"{case['via']}({describe(case['spec'])})", obs["st"], obs["after"], rs[0], dis)
+        return dis
+    r = rs[0]
+    if ("ok" in r) != (obs["st"] == "ok"):
+        dis.append(f"Field(value={describe(case['spec'])}): impl {obs['st']} {obs.get('exc', '')} vs model {'ok' if 'ok' in r else r}")
+        return dis
+    if obs["st"] != "ok":
+        return dis
+    cmp_array("Field.array", obs["array"], r["ok"], exact, dis)
+    if len(rs) < 2:
+        return dis
+    pr, mp = obs["probe"], rs[1]
+    for c, m in zip(pr["calls"], mp["calls"]):
+        if ("ok" in m) != (c["st"] == "ok"):
+            dis.append(f"field({c['p']}) [{c['tag']}]: impl {c['st']} vs model {m}")
+        elif c["st"] == "ok":
+            cmp_nums(f"field({c['p']}) [{c['tag']}]", c["row"], m["ok"], True, dis)
+    for c, m in zip(pr["comps"], mp["comps"]):
+        if ("ok" in m) != (c["st"] == "ok"):
+            dis.append(f"component {c['label']}: impl {c['st']} vs model {m}")
+        elif c["st"] == "ok":
+            cmp_array(f"component {c['label']}", c, m["ok"], True, dis)
+    mit = mp["iter"]
+    if len(mit) != len(pr["iter"]):
+        dis.append(f"iteration length impl {len(pr['iter'])} vs model {len(mit)}")
+    else:
+        for k, (a, b) in enumerate(zip(pr["iter"], mit)):
+            if "ok" not in b or not cmp_nums(f"iteration item {k}", a, b["ok"], True, dis):
+                if "ok" not in b:
+                    dis.append(f"iteration item {k}: model {b}")
+                break
+    for l, m in zip(pr["lines"], mp["lines"]):
+        name = f"line({l['p1']} -> {l['p2']}, n={l['n']})"
+        if l["st"] == "collision":
+            continue
+        if ("ok" in m) != (l["st"] == "ok"):
+            dis.append(f"{name}: impl {l['st']} vs model {m}")
+            continue
+        if l["st"] != "ok":
+            continue
+        mo = m["ok"]
+        if len(mo["points"]) != len(l["points"]):
+            dis.append(f"{name}: {len(l['points'])} points vs model {len(mo['points'])}")
+            continue
+        span = max(abs(F(x)) for x in obs["mesh_json"]["region"]["pmin"] + obs["mesh_json"]["region"]["pmax"])
+        okp = True
+        for j, (a, b) in enumerate(zip(l["points"], mo["points"])):
+            if not cmp_nums(f"{name} point {j}", a, b, exact, dis, scale=float(span), rel=2**-44):
+                okp = False
+                break
+        if exact or okp:
+            if exact:
+                for j, (a, b) in enumerate(zip(l["values"], mo["values"])):
+                    if not cmp_nums(f"{name} value {j}", a, b, True, dis):
+                        break
+            for j, (a, b) in enumerate(zip(l["r"], mo["r2"])):
+                rr = F(a)
+                if abs(rr * rr - F(b)) > Fraction(2) ** -40 * max(F(b), Fraction(1, 10**300)):
+                    dis.append(f"{name} r[{j}]: impl {float(rr)} squared vs model r^2 {b}")
+                    break
+    if case["kind"] == "init" and len(rs) > 2:
+        cmp_after(f"update_field_values({describe(case['spec2'])})", obs["st2"], obs["after2"], rs[2], dis)
+        if len(rs) > 3:
+            cmp_after(f"{case['via']}({describe(case['bad'])})", obs["st3"], obs["after3"], rs[3], dis)
+    return dis
+
+
+def nontrivial(case, obs):
+    return bool(obs.get("nontrivial"))
+
+
+def _sentinel_class(spec, kind):
+    return (kind in ("int", "bool") and isinstance(spec, dict) and spec.get("k") == "dict"
+            and (spec["default"] is None or spec["default"]["k"] in ("poly", "field")))
+
+
+def known(case, text):
+    """D21: dictionary value, dtype int or bool, default callable or missing: the NaN sentinel does not survive the cast,
+    so cells covered by no listed subregion keep the cast sentinel and a missing default is not reported"""
+    if text.startswith("line data frame: coordinate column"):
+        return "D22"
+    if len(case["mesh"]["n"]) == 1 and text.startswith("line ") and "raised" in text:
+        return "D23"
+    if "accepted by setter: field(nvdim=" in text:
+        return "D24"
+    kind = case.get("dtype")
+    for key in ("spec", "spec2"):
+        if _sentinel_class(case.get(key), kind):
+            if key == "spec2" and "update_field_values" not in text and "cell" not in text and "specification assigns" not in text:
+                continue
+            return "D21"
+    return None
